@@ -17,6 +17,10 @@ type VG struct {
 	R        *rand.Rand
 	SubTick  bool // allow instants that are not multiples of 100ns (C01 only)
 	NaNKeys  bool // allow NaN float map keys
+	// MultiUnion: some union values have TWO members set (the Go type permits it; the encoders
+	// must still agree with each other and with Size()). Only for checks that compare the
+	// encoders among themselves: what such a value means on the wire is not specified.
+	MultiUnion bool
 	MaxDepth int
 	heights  map[string]int
 	// shift is added to the variant index of every field value (not to the presence mask of
@@ -355,6 +359,11 @@ func (g *VG) Record(d *schema.Def, i, depth int) any {
 			}
 		}
 		out[b] = map[string]any{"p": g.Record(bs[b].Def, i/len(bs), depth+1)}
+		if g.MultiUnion && len(bs) >= 2 && depth <= g.MaxDepth && i%5 == 4 {
+			if b2 := (b + 1 + i/5%(len(bs)-1)) % len(bs); b2 != b && g.height(bs[b2].Def.Name) < inf {
+				out[b2] = map[string]any{"p": g.Record(bs[b2].Def, i/len(bs)+1, depth+1)}
+			}
+		}
 		return out
 	}
 	return nil
